@@ -36,6 +36,7 @@ import (
 	"github.com/gcash/bchutil"
 	"github.com/gcash/bchutil/bech32"
 
+	"verif/harness/cmd/c01/addrlib/envrun"
 	"verif/harness/internal/vh"
 )
 
@@ -1110,9 +1111,15 @@ func main() {
 		fmt.Printf("c03: %d implementation executions, %d correspondence cases, %d monitor violations\n", rep.Evaluations, rep.Cases, len(rep.Violations))
 	}()
 	if cfg.Replay != "" {
-		replay(cfg.Replay)
+		if !envrun.Replay(cfg, rep) {
+			replay(cfg.Replay)
+		}
 		return
 	}
+	// environment monitors (round 3): every package of the module linked, decode tables read at the start and at
+	// the end of the run, single substitutions over all of ASCII; plain children
+	env := envrun.Start(cfg, rep)
+	defer env.Finish()
 
 	polymodFamilies(rng)
 	cashAcc, bechAcc := residueFamilies(rng)
